@@ -50,10 +50,10 @@ import (
 )
 
 const (
-	imSequential = iota // one goroutine, back-to-back
-	imParallel          // goroutines locked to OS threads, released together
-	imBursts            // one goroutine, bursts separated by 2x runtime.GC()
-	imParallelBursts    // both
+	imSequential     = iota // one goroutine, back-to-back
+	imParallel              // goroutines locked to OS threads, released together
+	imBursts                // one goroutine, bursts separated by 2x runtime.GC()
+	imParallelBursts        // both
 	nIm
 )
 
